@@ -6,6 +6,7 @@ import (
 	"os"
 	"sort"
 	"strings"
+	"time"
 
 	"go.1password.io/spg"
 	"verif/harness/core"
@@ -280,6 +281,61 @@ func c01SweepSites(c *core.Ctx) {
 		counts := map[string]uint64{}
 		var redrawn, failed, panics uint64
 		from := lo
+		// a site whose generation is slow (a character recipe builds its
+		// alphabet with set operations on every call) cannot be swept in
+		// reasonable time: each site gets a time limit, and a site that
+		// hits it is reported as not decided
+		siteStart, timedOut, sweptTo := time.Now(), false, hi
+		siteLimit := 10 * time.Minute
+		if !c.Thorough() {
+			siteLimit = 6 * time.Minute
+		}
+		// outcomes are named after the first menu word that produces them,
+		// not after the password itself: a word list keeps its words in an
+		// order that differs from one construction (worker process) to the
+		// next, so "index 0" is another word in every shard, and histograms
+		// keyed by the word would not add up
+		label := map[string]string{}
+		func() {
+			defer func() { recover() }()
+			for _, mw := range c01SiteMenu {
+				words[pl.idx] = mw
+				rd.pos = 0
+				p, err := s.Gen()
+				if err != nil || p == nil || rd.pos > 4*len(words) {
+					continue
+				}
+				if _, ok := label[p.String()]; !ok {
+					label[p.String()] = fmt.Sprintf("the alternative selected by word %#x", mw)
+				}
+			}
+		}()
+		// estimate first: 2000 calls
+		{
+			est0 := time.Now()
+			estN := 1
+			func() {
+				defer func() { recover() }()
+				for i := 0; i < 20000 && (i < 2000 || time.Since(est0) < time.Second); i++ {
+					words[pl.idx] = uint32(i * 2654435)
+					rd.pos = 0
+					s.Gen()
+					estN++
+				}
+			}()
+			perCall := time.Since(est0) / time.Duration(estN)
+			// (generous: the estimate is noisy, and the loop below stops at
+			// the limit anyway)
+			if need := perCall * time.Duration(hi-lo); need > 3*siteLimit {
+				tape.Reset()
+				tape.Install(nil)
+				c.Incomplete("%s (%s): one generation takes %v, a sweep of all 2^32 values of the deciding word would take this shard %v (limit %v): not swept; the site was compared with the primitive on the %d-word menu only (%s)", key, s.Name, perCall, need.Round(time.Second), siteLimit, len(c01SiteMenu), map[bool]string{true: "it follows the primitive there", false: "it does NOT follow the primitive there: " + pl.promote}[pl.promote == ""])
+				if c.Shard == 0 {
+					c.Count("sites_too_slow_to_sweep", 1)
+				}
+				continue
+			}
+		}
 		step := func() {
 			defer func() {
 				if x := recover(); x != nil {
@@ -291,6 +347,12 @@ func c01SweepSites(c *core.Ctx) {
 				}
 			}()
 			for w := from; w < hi; w++ {
+				if w&0xffff == 0 && time.Since(siteStart) > siteLimit {
+					timedOut = true
+					sweptTo = w
+					from = hi
+					return
+				}
 				words[pl.idx] = uint32(w)
 				rd.pos = 0
 				p, err := s.Gen()
@@ -302,7 +364,12 @@ func c01SweepSites(c *core.Ctx) {
 					redrawn++
 					continue
 				}
-				counts[p.String()]++
+				o := p.String()
+				if l, ok := label[o]; ok {
+					counts[l]++
+				} else {
+					counts["an alternative no menu word selects: "+o]++
+				}
 			}
 			from = hi
 		}
@@ -311,9 +378,12 @@ func c01SweepSites(c *core.Ctx) {
 		}
 		tape.Reset()
 		tape.Install(nil)
-		c.Count("executions", int64(hi-lo))
-		c.Count("site_executions", int64(hi-lo))
-		c.Count(fmt.Sprintf("site|%d|swept", si), int64(hi-lo))
+		if timedOut {
+			c.Incomplete("%s (%s): the sweep of this shard stopped at its time limit after %d of %d values", key, s.Name, sweptTo-lo, hi-lo)
+		}
+		c.Count("executions", int64(sweptTo-lo))
+		c.Count("site_executions", int64(sweptTo-lo))
+		c.Count(fmt.Sprintf("site|%d|swept", si), int64(sweptTo-lo))
 		c.Count(fmt.Sprintf("site|%d|redrawn", si), int64(redrawn))
 		c.Count(fmt.Sprintf("site|%d|failed", si), int64(failed+panics))
 		for k, v := range counts {
